@@ -274,11 +274,14 @@ Fixpoint trace (fuel : nat) (tbl : optable) (cx : tcx) (d : nat) (p : program) (
   end.
 
 (* ---- the scenario interpreter: one cell of the correspondence matrix ---- *)
-Inductive cop := KSr | KSm | KEn | KRi | KRm | KRt | KCa | KAx.
+Inductive cop := KSr | KSm | KEn | KRi | KRm | KRt | KCa | KAx
+               | KCall (client_streaming : bool).   (* the stub-style call, one request message *)
 Inductive creason := RPaused | RWindow | RSlot | RSilent.
 Inductive cevent := VRst | VGoaway | VGarbage | VLost | VClose
                   | VSerr.   (* stream-level protocol violation by the peer: h2 resets the stream locally *)
-Inductive cstatus := StNone | StH503 | StTonly (k : Z) | StTrailers (k : Z).
+Inductive cstatus := StNone | StH503 | StTonly (k : Z) | StTrailers (k : Z)
+                   | StH200              (* response headers (200) only *)
+                   | StH200Msg.          (* response headers and one message *)
 Inductive cvariant := VaBase | VaImplicit | VaAfterHeaders.
 
 Record cell := {
@@ -287,7 +290,7 @@ Record cell := {
 
 Definition opens_in_op (c : cell) : bool :=
   match c_op c, c_variant c with
-  | KSr, _ | KSm, VaImplicit => true
+  | KSr, _ | KSm, VaImplicit | KCall _, _ => true
   | _, _ => false
   end.
 
@@ -308,10 +311,12 @@ Definition cell_hinfo (c : cell) : option hinfo :=
   match c_status c with
   | StH503 => Some {| h_ok := false; h_mapped := 14%Z; h_gs := GMissing |}
   | StTonly k => Some {| h_ok := true; h_mapped := 0%Z; h_gs := GCode k |}
-  | StTrailers _ => Some {| h_ok := true; h_mapped := 0%Z; h_gs := GMissing |}
+  | StTrailers _ | StH200 | StH200Msg => Some {| h_ok := true; h_mapped := 0%Z; h_gs := GMissing |}
   | StNone => if need_headers c then Some {| h_ok := true; h_mapped := 0%Z; h_gs := GMissing |}
               else None
   end.
+Definition msg_arrived (c : cell) : bool :=
+  match c_status c with StH200Msg => true | _ => false end.
 Definition cell_tinfo (c : cell) : option gstat :=
   match c_status c with StTrailers k => Some (GCode k) | _ => None end.
 
@@ -330,7 +335,7 @@ Definition blocks (c : cell) (s : site) : bool :=
   | SPrim PEnd | SPrim PReset => is_reason (c_reason c) RPaused
   | SPrim PRecvHeaders => negb (hdr_arrived c)
   | SPrim PRecvTrailers => negb (trl_arrived c || eof_arrived c)   (* __ended__ sets trailers_received *)
-  | SPrim PRecvMessage => negb (eof_arrived c)
+  | SPrim PRecvMessage => negb (eof_arrived c || msg_arrived c)
   | SPrim PConnect | SPrim (PSendHeaders _) | SHook _ => false
   end.
 
@@ -354,13 +359,14 @@ Fixpoint decisions (c : cell) (p : path) : list dec :=
 Definition cell_env (c : cell) (closing : bool) (q : envpred) : bool :=
   match q with
   | E_has_grpc_status => match c_status c with StTonly _ => true | _ => false end
-  | E_got_message => false
+  | E_got_message => msg_arrived c
   | E_closable => false
   | E_untracked _ => c_deadline c      (* (`closing` is no longer read by any modelled condition) *)
   end.
 
 Definition cell_cx (c : cell) (e closing : bool) : tcx :=
-  {| x_cs := true; x_ss := true; x_end := e; x_env := cell_env c closing |}.
+  {| x_cs := match c_op c with KCall cs => cs | _ => true end; x_ss := true; x_end := e;
+     x_env := cell_env c closing |}.
 
 Definition TRACE_FUEL : nat := 60.
 
@@ -370,6 +376,23 @@ Definition op_program (tbl : optable) (o : cop) : option program :=
   | KRi => lookup OpRecvInitialMetadata tbl | KRm => lookup OpRecvMessage tbl
   | KRt => lookup OpRecvTrailingMetadata tbl | KCa => lookup OpCancel tbl
   | KAx => Some maybe_finish_prog
+  | KCall _ => lookup OpSendMessage tbl
+  end.
+
+(* The operations a cell's task performs one after the other, each with its `end` argument.  The
+   stub-style call (UnaryUnaryMethod.__call__ and its siblings, one request message) is
+       send_message(m, end=True)  -- implicit send_request;   recv_message()  -- implicit
+       recv_initial_metadata;   the context exit's implicit finish.
+   Between two operations the asyncio task is outside every guard and not a member of the wrapper,
+   exactly like a fresh kernel task, so the sequence is run as successive kernel tasks. *)
+Definition op_sequence (tbl : optable) (o : cop) : option (list (program * bool)) :=
+  match o with
+  | KCall _ =>
+      match lookup OpSendMessage tbl, lookup OpRecvMessage tbl with
+      | Some a, Some b => Some [(a, true); (b, false); (maybe_finish_prog, false)]
+      | _, _ => None
+      end
+  | _ => match op_program tbl o with Some p => Some [(p, false)] | None => None end
   end.
 
 Definition one_call (s : sys) : call := nth 0 s (new_call false).
@@ -410,6 +433,21 @@ Definition start_op (tbl : optable) (cx : tcx) (ds : path -> list dec) (s : sys)
       let s1 := sstep s (LK 0 (Spawn p)) in
       let s2 := sstep s1 (LK 0 (Run (last_task s1) (ds p))) in
       Some (s2, t_fl r, in_paths tbl p)
+  end.
+
+Fixpoint start_seq (tbl : optable) (c : cell) (closing : bool) (s : sys) (fl : flags) (ok : bool)
+         (ps : list (program * bool)) : option (sys * flags * bool) :=
+  match ps with
+  | [] => Some (s, fl, ok)
+  | (prog, e) :: r =>
+      match start_op tbl (cell_cx c e closing) (decisions c) s fl prog with
+      | None => None
+      | Some (s', fl', ok') =>
+          match task_st s' (last_task s'), r with
+          | Done RNormal, _ :: _ => start_seq tbl c closing s' fl' (ok && ok') r
+          | _, _ => Some (s', fl', ok && ok')
+          end
+      end
   end.
 
 (* the loop runs every task once more (a task that is not ready is left alone) *)
@@ -459,13 +497,14 @@ Definition helper_outcome (c : cell) : outcome :=
   match c_status c with
   | StH503 => OGrpc 14
   | StTonly k | StTrailers k => OGrpc k
-  | StNone => OOther
+  | StNone | StH200 | StH200Msg => OOther
   end.
 
 Definition res_outcome (c : cell) (r : result) : outcome :=
   match r with RRaise XAdv => helper_outcome c | _ => outcome_of r end.
 
-Definition is_ax (o : cop) : bool := match o with KAx => true | _ => false end.
+(* the operation is (or ends with) the context exit: its outcome is the call's *)
+Definition is_ax (o : cop) : bool := match o with KAx | KCall _ => true | _ => false end.
 
 Definition op_outcome (c : cell) (s : sys) (t : nat) : outcome :=
   match task_st s t with
@@ -526,12 +565,12 @@ Definition predict (tbl : optable) (c : cell) : prediction :=
           end
         else pre1
     end in
-  match pre2, op_program tbl (c_op c) with
-  | Some (s1, fl1, ok1), Some prog =>
+  match pre2, op_sequence tbl (c_op c) with
+  | Some (s1, fl1, ok1), Some progs =>
       if need_headers c && match c_status c with StH503 | StTonly _ => true | _ => false end
       then no_prediction SStatusInfeasible
       else if c_during c then
-        match start_op tbl (cell_cx c false false) (decisions c) s1 fl1 prog with
+        match start_seq tbl c false s1 fl1 true progs with
         | None => no_prediction SError
         | Some (s2, _, ok2) =>
             let t := last_task s2 in
@@ -558,8 +597,7 @@ Definition predict (tbl : optable) (c : cell) : prediction :=
         match fire c fl1 s1 with
         | inr su => no_prediction su
         | inl s2 =>
-            match start_op tbl (cell_cx c false (conn_level (c_event c))) (decisions c) (drain s2)
-                           fl1 prog with
+            match start_seq tbl c (conn_level (c_event c)) (drain s2) fl1 true progs with
             | None => no_prediction SError
             | Some (s3, _, ok2) => conclude c s3 (last_task s3) None reg (ok1 && ok2)
             end
